@@ -242,6 +242,63 @@ def _risky_expr(expr, stored, trail, out, st=None):
             return
 
 
+def _to_direction(ctx):
+    """to(): per branch (target given as a unit object / as an expression) the stored magnitude is
+    _convert(own magnitude, own units, target units) - divided by the unit object's own magnitude when the target is a
+    quantity such as Unit().km or 2 m - and the stored units are the target units."""
+    from ..flowexpr import paths
+    fn = ctx.fn(Q, "Quantity.to")
+    pa = [a.arg for a in fn.args.args]
+    if len(pa) != 2:
+        ctx.unrecognised(Q, "Quantity.to", "signature", f"parameters {pa}")
+        return
+    u = pa[1]
+    seen = 0
+    for q in paths(fn):
+        if q.status == "raise":
+            continue
+        isq = None
+        for t in q.tests():
+            if norm(t.resolved) == f"isinstance({u}, Quantity)":
+                isq = t.extra
+        mags = [e.resolved for e in q.events if e.kind == "store" and e.extra == "self.magnitude"]
+        units = [norm(e.resolved) for e in q.events if e.kind == "store" and e.extra == "self.baseunits"]
+        if isq is None or len(mags) != 1 or len(units) != 1:
+            ctx.form(False, Q, "Quantity.to", "one store of the magnitude and one of the units per branch on the kind of target", detail={"target is a quantity": isq, "units": units})
+            continue
+        seen += 1
+        branch = "target given as a quantity" if isq else "target given as an expression"
+        m = mags[0]
+        target = f"{u}.baseunits" if isq else f"BaseUnits({u})"
+        scale = None
+        if isinstance(m, ast.BinOp) and isinstance(m.op, (ast.Div, ast.Mult)) and norm(m.right) == f"{u}.magnitude":
+            scale, m = type(m.op).__name__, m.left
+        ok_call = isinstance(m, ast.Call) and norm(m.func) == "self._convert" and len(m.args) == 3 and not m.keywords
+        if not ok_call:
+            ctx.form(False, Q, "Quantity.to", f"{branch}: the magnitude is converted by self._convert(own magnitude, own units, target units)", detail=norm(mags[0]))
+            continue
+        a = [norm(x) for x in m.args]
+        what = f"{branch}: own magnitude converted from own units to the target units"
+        if a == ["self.magnitude", target, "self.baseunits"]:
+            ctx.violated(Q, "Quantity.to", what, detail=norm(m), expected=f"self._convert(self.magnitude, self.baseunits, {target})")
+        else:
+            ctx.form(a == ["self.magnitude", "self.baseunits", target], Q, "Quantity.to", what, detail=norm(m))
+        what = f"{branch}: the target units are adopted"
+        if units[0] == "self.baseunits":
+            ctx.violated(Q, "Quantity.to", what, detail=units[0], expected=target)
+        else:
+            ctx.form(units[0] == target, Q, "Quantity.to", what, detail=units[0])
+        if isq:
+            what = "a target given as a quantity divides by that quantity's own magnitude (x in units of 2 m is x/2 in m)"
+            if scale == "Mult":
+                ctx.violated(Q, "Quantity.to", what, detail=norm(mags[0]), expected=f"... / {u}.magnitude")
+            else:
+                ctx.form(scale == "Div", Q, "Quantity.to", what, detail=norm(mags[0]))
+        else:
+            ctx.form(scale is None, Q, "Quantity.to", "a target given as an expression applies no further factor", detail=norm(mags[0]))
+    ctx.floor("branches of Quantity.to", seen, 2, file=Q)
+
+
 def r4_atomic_to(ctx):
     for name in ("to",):
         fn = ctx.fn(Q, f"Quantity.{name}")
@@ -250,6 +307,7 @@ def r4_atomic_to(ctx):
         ctx.check(not out, Q, f"Quantity.{name}", "no statement that may raise follows a store to self on any path",
                   detail=[{"statement": s, "path": p} for s, p in out[:4]] or None,
                   expected="a refused conversion leaves magnitude and units untouched")
+    _to_direction(ctx)
     fn = ctx.fn(Q, "Quantity.value")
     s = norm(fn)
     ctx.form("self._convert(self.magnitude, self.baseunits, BaseUnits(expression)).value" in s, Q, "Quantity.value",
